@@ -16,6 +16,9 @@
 //     like a silent one while a session sending valid heartbeats survives.
 //  5. ssh tunnel gateway: unlisted keys never reach frps; without an authorized-keys file the virtual
 //     client needs the token.
+//  7. oidc skip options: against the four combinations of skipIssuerCheck / skipExpiryCheck every token class
+//     (valid, expired, foreign issuer, both, wrong audience, bad signature, mixed) on login, heartbeat and
+//     work connection: a skipped check tolerates exactly that defect and nothing else.
 //  6. stall: connections that never send a byte must not keep an existing session (tcpMux off, websocket)
 //     from bringing up work connections.
 package main
@@ -38,15 +41,16 @@ import (
 const prop = "C04"
 
 var (
-	run      *h.Run
-	iss      *issuer
-	fleet    []*srvInfo // servers for attack / barrage cases
-	hbFleet  []*srvInfo // servers with a short heartbeat timeout
-	sshOpen  *srvInfo   // ssh gateway without authorized keys
-	sshKeyed *srvInfo   // ssh gateway with authorized keys
-	stallSrv *srvInfo   // tcpMux off, used only by the stall cases
-	all      []*srvInfo
-	webPort  int
+	run       *h.Run
+	iss       *issuer
+	fleet     []*srvInfo // servers for attack / barrage cases
+	hbFleet   []*srvInfo // servers with a short heartbeat timeout
+	sshOpen   *srvInfo   // ssh gateway without authorized keys
+	sshKeyed  *srvInfo   // ssh gateway with authorized keys
+	stallSrv  *srvInfo   // tcpMux off, used only by the stall cases
+	skipFleet []*srvInfo // oidc, both scopes, the four combinations of skipIssuerCheck / skipExpiryCheck
+	all       []*srvInfo
+	webPort   int
 )
 
 func fatal(what string, err error) {
@@ -110,6 +114,12 @@ func main() {
 	sshKeyed.SSHPort, sshKeyed.SSHKeys = pa.Get(), true
 	stallSrv = mk("tok-nomux-stall", "token", false, false, false, 0, false)
 	all = append(append(append([]*srvInfo{}, fleet...), hbFleet...), sshOpen, sshKeyed, stallSrv)
+	for i := 0; i < 4; i++ {
+		s := mk(fmt.Sprintf("oidc-hb-wc-skipiss%v-skipexp%v", i&1 != 0, i&2 != 0), "oidc", true, true, true, 0, false)
+		s.SkipIss, s.SkipExp, s.NoInc = i&1 != 0, i&2 != 0, true
+		skipFleet = append(skipFleet, s)
+		all = append(all, s)
+	}
 
 	for _, s := range all {
 		if s.S, err = h.StartServerText(prop, s.cfgText()); err != nil {
@@ -118,7 +128,7 @@ func main() {
 	}
 	// incumbents (not on the short-timeout servers: nobody would keep them alive)
 	for _, s := range all {
-		if s.HBTimeout > 0 {
+		if s.HBTimeout > 0 || s.NoInc {
 			continue
 		}
 		pool := 1
@@ -164,6 +174,8 @@ func main() {
 	base := takeBaseline()
 
 	nCases := run.N(330, 4200)
+	// oidc skip-option matrix: one case per server, indices after the generated cases
+	run.ParallelRange(nCases, len(skipFleet), len(skipFleet), func(c *h.Case) { oidcSkipCase(c, skipFleet[c.Idx-nCases]) })
 	batches := run.N(2, 6)
 	var warm *residue
 	for b := 0; b < batches; b++ {
@@ -201,6 +213,12 @@ func main() {
 
 func dispatch(c *h.Case) {
 	rng := c.Rng
+	t0 := time.Now()
+	defer func() {
+		if d := time.Since(t0); d > 12*time.Second {
+			fmt.Fprintf(os.Stderr, "slow case %d (%v %v %v): %v\n", c.Idx, c.Data["kind"], c.Data["server"], c.Data["transport"], d.Round(time.Millisecond))
+		}
+	}()
 	switch r := rng.Intn(100); {
 	case r < 72:
 		si := fleet[rng.Intn(len(fleet))]
